@@ -103,7 +103,9 @@ class DelayModel:
             This is the runtime+delay value = essentially the new runtime value
         """
         delay = task_runtime
-        if self.degree.value == 0:
+        if self.degree.value == 0 or task_runtime == 0:
+            # nothing to stretch: a distribution around 0 with sigma 0 has no
+            # sample above its mean to draw the delay from
             return delay
         else:
             if default_rng(self.seed).random() < self.prob:
